@@ -1079,7 +1079,17 @@ pub fn inject(r: &mut Rng, t: &Tuple, sp: &Spelled, kind: &str) -> Option<String
                 },
                 "checksum-nonhex" => {
                     let at = r.below(entries.len() + 1);
-                    entries.insert(at, format!("nh{}:{}", r.below(1000), r.pick(&["zz", "0g", "g0", "0x", "é", "  ", "-1", "+1"])));
+                    // a short non-hex digest, or a long one with one bad character at any place
+                    let digest = if r.coin() {
+                        r.pick(&["zz", "0g", "g0", "0x", "é", "  ", "-1", "+1"]).to_string()
+                    } else {
+                        let len = 2 * r.range(1, 20);
+                        let mut d: Vec<char> = (0..len).map(|_| *r.pick(b"0123456789abcdefABCDEF") as char).collect();
+                        let i = r.below(len);
+                        d[i] = *r.pick(&['g', 'G', 'z', 'x', ' ', '-', '+', '_', '.', '/', '`', '@']);
+                        d.into_iter().collect()
+                    };
+                    entries.insert(at, format!("nh{}:{digest}", r.below(1000)));
                 },
                 "checksum-several-faults" => {
                     // two to four damaged entries of the same or of different kinds (e.g. two
